@@ -176,6 +176,20 @@ fn exhaustive_replay(v: Value) -> Result<(), Fail> {
     check_string(&c.v, &mut Obs::default())
 }
 
+// ------------------------------------------------------------------ coverage-guided lane (libFuzzer)
+
+fn fuzz_spec() -> crate::fuzzlane::FuzzSpec {
+    crate::fuzzlane::FuzzSpec { target: "escape", oracle: |d, o| match std::str::from_utf8(d) { Ok(s) if s.len() <= 64 => check_string(s, o), _ => Ok(()) }, seeds: crate::fuzzlane::seeds_strings, max_len: 64, runs_per_worker: 500000 }
+}
+
+fn fuzz_run(ctx: &Ctx, known: &[crate::runner::KnownFinding]) -> crate::runner::LaneReport {
+    crate::fuzzlane::run(&fuzz_spec(), ctx, known)
+}
+
+fn fuzz_replay(v: serde_json::Value) -> Result<(), Fail> {
+    crate::fuzzlane::replay(&fuzz_spec(), v)
+}
+
 pub fn property() -> Property {
     let _ = Tier::Quick;
     Property {
@@ -186,6 +200,7 @@ pub fn property() -> Property {
         lanes: vec![
             Box::new(PLane { name: "strings", cases: |t| t.pick(4_000, 100_000), strat: str_strat, check: check_case }),
             Box::new(FnLane { name: "short-ascii", run: exhaustive_run, replay: exhaustive_replay }),
+            Box::new(crate::runner::FnLane { name: "fuzz", run: fuzz_run, replay: fuzz_replay }),
         ],
         workers: (8, 16),
     }
